@@ -23,6 +23,8 @@ FIXED = [
     dict(name='sir-births-deaths-halfstep', n=90, seed=5, dur=9, dt=0.5, net='random', beta=0.4, init_prev=0.2, dur_inf=2.5, p_death=0.5, births=40, deaths=30),
     dict(name='sir-static-nodeath', n=80, seed=7, dur=12, dt=1.0, net='static', beta=0.5, init_prev=0.1, dur_inf=3.0, p_death=0.0, births=0, deaths=0),
     dict(name='sir-mf-lethal', n=100, seed=11, dur=10, dt=1.0, net='mf', beta=0.9, init_prev=0.3, dur_inf=1.5, p_death=1.0, births=20, deaths=0),
+    # few births per step and a high death rate: the agent with the highest identifier dies before a further birth (seed C107b: identifier reuse)
+    dict(name='sir-top-uid-dies-then-birth', n=60, seed=17, dur=30, dt=1.0, net='random', beta=0.3, init_prev=0.2, dur_inf=3.0, p_death=0.2, births=60, deaths=120),
     dict(name='sir-erdosrenyi-quarter', n=70, seed=13, dur=4, dt=0.25, net='erdosrenyi', beta=0.6, init_prev=0.25, dur_inf=1.0, p_death=0.4, births=35, deaths=35),
 ]
 
